@@ -70,6 +70,18 @@ Proof.
   - unfold bin_res in H. destruct (ty_eqb a b) eqn:E; inversion H; subst. cbn. rewrite E. reflexivity.
   - unfold bin_res in H. destruct (is_index b) eqn:E; [| discriminate H].
     destruct a; inversion H; subst; cbn; rewrite E; reflexivity.
+  - unfold bin_res, concat_is_list in H. unfold tc_bin, vlist, velem, vtextish, validate2. cbn [vty_eqb].
+    destruct (is_listb a || is_listb b || negb (is_text a || is_text b)) eqn:Ec.
+    + destruct (ty_eqb (lelem a) (lelem b)) eqn:E; inversion H; subst.
+      assert (Hn : negb (is_listb a) && negb (is_listb b) && (ty_eqb a TText || ty_eqb b TText) = false).
+      { destruct a; destruct b; cbn in *; try discriminate Ec; reflexivity. }
+      rewrite Hn. reflexivity.
+    + destruct (textish a) eqn:Ha, (textish b) eqn:Hb; inversion H; subst.
+      destruct a; try discriminate Ha; destruct b; try discriminate Hb; cbn in *; try discriminate Ec; reflexivity.
+  - unfold bin_res in H. destruct (seqlike a) eqn:Ea, (is_index b) eqn:Eb; inversion H; subst. cbn. rewrite Ea, Eb.
+    destruct c; try discriminate Ea; reflexivity.
+  - unfold bin_res in H. destruct (seqlike a) eqn:Ea, (is_index b) eqn:Eb; inversion H; subst. cbn. rewrite Ea, Eb.
+    destruct c; try discriminate Ea; reflexivity.
 Qed.
 
 Lemma field_of_struct : forall s f x, field_of M s f = Some x -> is_struct_name M s = true.
@@ -108,6 +120,21 @@ Proof.
     destruct (assoc f F) as [[ps [r|]]|] eqn:Ef; try discriminate H.
     destruct (args_chk M F G a ps) eqn:Ea; inversion H; subst.
     destruct (IH _ Ea) as [H1 [H2 H3]]. rewrite H1. repeat split; auto.
+  - intros l IHl i IHi j IHj t H. cbn [type_of] in H. rewrite tc_slice_eq. cbn [rs_expr pt_expr].
+    destruct (type_of M F G l) as [a|] eqn:El; [| discriminate H].
+    destruct (type_of M F G i) as [ti|] eqn:Ei; [| discriminate H].
+    destruct (type_of M F G j) as [tj|] eqn:Ej; [| discriminate H].
+    destruct (seqlike a) eqn:Ha; [| discriminate H]. destruct (is_index ti) eqn:Hi; [| discriminate H].
+    destruct (is_index tj) eqn:Hj; inversion H; subst.
+    destruct (IHl _ eq_refl) as [H1 [H2 H3]]. destruct (IHi _ eq_refl) as [H4 [H5 H6]]. destruct (IHj _ eq_refl) as [H7 [H8 H9]].
+    rewrite H1, H4, H7, H2, H5, H8, H3, H6, H9. cbn. rewrite Ha, Hi, Hj. cbn.
+    destruct t; try discriminate Ha; repeat split.
+  - intros e IHe a IHa t H. cbn [type_of] in H. rewrite tc_list_eq. cbn [rs_expr pt_expr].
+    destruct (type_of M F G e) as [t0|] eqn:Ee; [| discriminate H].
+    destruct (is_listb t0) eqn:Hl; [discriminate H |]. cbn in H.
+    destruct (args_chk M F G a (repeat (t0, false) (alen a))) eqn:Ea; inversion H; subst.
+    destruct (IHe _ eq_refl) as [H1 [H2 H3]]. destruct (IHa _ Ea) as [H4 [H5 H6]].
+    rewrite H1, Hl, H4, H2, H5, H3, (pt_args_repeat F G' a TZahl t0), H6. repeat split.
   - intros ps H; destruct ps; [repeat split | discriminate H].
   - intros e IHe a IHa ps H. destruct ps as [| [t [|]] ps]; cbn [args_chk] in H; try discriminate H.
     + destruct e; try discriminate H. destruct (lookup G x) as [[t0| | |]|] eqn:El; try discriminate H.
@@ -159,6 +186,58 @@ Proof.
   repeat split; auto.
 Qed.
 
+Lemma vassign_of_assignable : forall s t, assignableb s t = true -> vassign_ok (Some s) (Some t) = true.
+Proof.
+  intros s t H. unfold vassign_ok; cbn. unfold assignableb in H. apply orb_true_iff in H as [H | H].
+  - apply ty_eqb_eq in H; subst. rewrite ty_eqb_refl. reflexivity.
+  - apply andb_true_iff in H as [Ha Hb]. rewrite Ha, Hb, orb_true_r. reflexivity.
+Qed.
+
+Lemma tc_index_complete : forall e, indexb_expr M F G e = true ->
+  exists t, tc_expr Q M F G' e = (Some t, []) /\ is_index t = true /\ rs_expr G' e = [] /\ pt_expr F G' e = [].
+Proof.
+  intros e H. unfold indexb_expr in H. destruct (type_of M F G e) as [t|] eqn:E; [| discriminate H].
+  destruct (proj1 (tc_complete_gen F G G' Hext Hsok) _ _ E) as [H1 [H2 H3]]. eauto.
+Qed.
+
+Lemma tc_assign_complete : forall e t, assign_chk M F G e t = true ->
+  exists t0, tc_expr Q M F G' e = (Some t0, []) /\ vassign_ok (Some t0) (Some t) = true /\ rs_expr G' e = [] /\ pt_expr F G' e = [].
+Proof.
+  intros e t H. unfold assign_chk in H. destruct (type_of M F G e) as [t0|] eqn:E; [| discriminate H].
+  destruct (proj1 (tc_complete_gen F G G' Hext Hsok) _ _ E) as [H1 [H2 H3]]. exists t0. auto using vassign_of_assignable.
+Qed.
+
+Lemma tcs_assignidx_ok : forall deep r x i e tx, lookup G x = Some (BVar tx) -> seqlike tx = true ->
+  indexb_expr M F G i = true -> assign_chk M F G e (selem tx) = true ->
+  tcs_stmt Q M deep F G' r (SAssignIdx x i e) = [] /\ rs_ident G' x = [] /\ lookup G' x = Some (BVar tx) /\
+  rs_expr G' i = [] /\ pt_expr F G' i = [] /\ rs_expr G' e = [] /\ pt_expr F G' e = [].
+Proof.
+  intros deep r x i e tx El Hs Hi Ha.
+  destruct (tc_index_complete _ Hi) as [ti [H1 [H2 [H3 H4]]]]. destruct (tc_assign_complete _ _ Ha) as [t0 [H5 [H6 [H7 H8]]]].
+  rewrite tcs_assignidx_eq, H5, H1. cbn [tc_expr]. unfold rs_ident. rewrite (Hext _ _ El). cbn. rewrite H2, Hs. cbn.
+  repeat split; auto. destruct tx; try discriminate Hs; cbn in *; rewrite H6; reflexivity.
+Qed.
+
+Lemma tcs_assignfield_ok : forall deep r f x e s tf, lookup G x = Some (BVar (TStruct s)) -> field_of M s f = Some (true, tf) ->
+  assign_chk M F G e tf = true ->
+  tcs_stmt Q M deep F G' r (SAssignField f x e) = [] /\ rs_ident G' x = [] /\ lookup G' x = Some (BVar (TStruct s)) /\
+  rs_expr G' e = [] /\ pt_expr F G' e = [].
+Proof.
+  intros deep r f x e s tf El Ef Ha.
+  destruct (tc_assign_complete _ _ Ha) as [t0 [H5 [H6 [H7 H8]]]].
+  assert (Et : type_of M F G (EField f (EVar x)) = Some tf) by (cbn; rewrite El, Ef; reflexivity).
+  destruct (proj1 (tc_complete_gen F G G' Hext Hsok) _ _ Et) as [H1 _].
+  rewrite tcs_assignfield_eq, H5, H1. unfold rs_ident. rewrite (Hext _ _ El). cbn. rewrite H6. repeat split; auto.
+Qed.
+
+Lemma tc_iter_complete : forall e te t, type_of M F G e = Some te -> iter_okb te t = true ->
+  tc_iter Q M F G' e t = [] /\ rs_expr G' e = [] /\ pt_expr F G' e = [].
+Proof.
+  intros e te t E Hi. destruct (proj1 (tc_complete_gen F G G' Hext Hsok) _ _ E) as [H1 [H2 H3]].
+  unfold tc_iter. rewrite H1. repeat split; auto. unfold iter_okb in Hi.
+  destruct te; try discriminate Hi; apply ty_eqb_eq in Hi; subst; cbn; rewrite ?ty_eqb_refl; reflexivity.
+Qed.
+
 End Slots.
 
 (* ---- shape of the environments ---------------------------------------------------------------- *)
@@ -168,30 +247,18 @@ Proof. intros sc G x H; cbn in H. destruct (assoc x sc); [discriminate H | auto]
 Lemma stmt_chk_shape : forall F s sc G d r G1, stmt_chk M F (sc :: G) d r s = Some G1 ->
   G1 = final_scope sc (BCons s BNil) :: G.
 Proof.
-  intros F s sc G d r G1 H. destruct s; cbn in H.
+  intros F s sc G d r G1 H.
+  destruct s; cbn [stmt_chk] in H;
+    try (repeat match type of H with
+                | (if ?c then _ else _) = _ => destruct c; try discriminate H
+                | match ?c with _ => _ end = _ => destruct c; try discriminate H
+                end; injection H as <-; reflexivity).
   - destruct (ty_ok (sc :: G) t && genderb M t a && assign_chk M F (sc :: G) e t) ; [| discriminate H].
     cbn in H. destruct (match assoc x sc with Some _ => true | None => false end) eqn:E; inversion H; subst.
     cbn. unfold scope_add. destruct (assoc x sc); [discriminate E | reflexivity].
   - destruct (article_eqb a Die); [| discriminate H].
     cbn in H. destruct (match assoc x sc with Some _ => true | None => false end) eqn:E; inversion H; subst.
     cbn. unfold scope_add. destruct (assoc x sc); [discriminate E | reflexivity].
-  - destruct (match assoc x sc with Some b => Some b | None => lookup G x end) as [[| | |]|]; try discriminate H.
-    destruct (assign_chk M F (sc :: G) e t); inversion H; reflexivity.
-  - destruct (has_typeb M F (sc :: G) c TBool); [| discriminate H].
-    destruct (block_chk M F (push (sc :: G)) d r th); [| discriminate H].
-    destruct (block_chk M F (push (sc :: G)) d r el); inversion H; reflexivity.
-  - destruct (has_typeb M F (sc :: G) c TBool); [| discriminate H].
-    destruct (block_chk M F (push (sc :: G)) (S d) r b); inversion H; reflexivity.
-  - match type of H with (if ?c then _ else _) = _ => destruct c; [| discriminate H] end.
-    match type of H with match ?c with _ => _ end = _ => destruct c; inversion H; reflexivity end.
-  - destruct d; inversion H; reflexivity.
-  - destruct d; inversion H; reflexivity.
-  - destruct e as [e|]; destruct r as [| [t|]]; try discriminate H.
-    + destruct (has_typeb M F (sc :: G) e t); inversion H; reflexivity.
-    + inversion H; reflexivity.
-  - destruct (block_chk M F (push (sc :: G)) d r b); inversion H; reflexivity.
-  - destruct (assoc f F) as [[ps ro]|]; [| discriminate H].
-    destruct (args_chk M F (sc :: G) a ps); inversion H; reflexivity.
 Qed.
 
 Lemma final_scope_cons : forall s b sc, final_scope sc (BCons s b) = final_scope (final_scope sc (BCons s BNil)) b.
@@ -216,42 +283,25 @@ Lemma sf_same : forall F,
   (forall s G d r G1 G2, stmt_chk M F G d r s = Some G1 -> sf_stmt M G s = Some G2 -> G1 = G2) /\
   (forall b G d r G1 G2, block_chk M F G d r b = Some G1 -> sf_block M G b = Some G2 -> G1 = G2).
 Proof.
-  intros F; apply stmt_block_ind.
-  - intros a t x e G d r G1 G2 H1 H2; cbn in *.
-    destruct (ty_ok G t && genderb M t a && assign_chk M F G e t && negb (in_top G x)); [| discriminate H1].
-    destruct (fresh_ok M G x); [| discriminate H2]. congruence.
-  - intros a x l G d r G1 G2 H1 H2; cbn in *.
-    destruct (article_eqb a Die && negb (in_top G x)); [| discriminate H1].
-    destruct (fresh_ok M G x); [| discriminate H2]. congruence.
-  - intros x e G d r G1 G2 H1 H2; cbn in *. destruct (lookup G x) as [[| | |]|]; try discriminate H1.
-    destruct (assign_chk M F G e t); congruence.
-  - intros c th IHth el IHel G d r G1 G2 H1 H2; cbn in *.
-    destruct (has_typeb M F G c TBool); [| discriminate H1].
-    destruct (block_chk M F (push G) d r th); [| discriminate H1].
-    destruct (block_chk M F (push G) d r el); [| discriminate H1].
-    destruct (sf_block M (push G) th); [| discriminate H2]. destruct (sf_block M (push G) el); congruence.
-  - intros c b IHb G d r G1 G2 H1 H2; cbn in *.
-    destruct (has_typeb M F G c TBool); [| discriminate H1].
-    destruct (block_chk M F (push G) (S d) r b); [| discriminate H1].
-    destruct (sf_block M (push G) b); congruence.
-  - intros a t x from to step b IHb G d r G1 G2 H1 H2; cbn [stmt_chk sf_stmt] in *.
-    match type of H1 with (if ?c then _ else _) = _ => destruct c; [| discriminate H1] end.
-    match type of H1 with match ?c with _ => _ end = _ => destruct c; [| discriminate H1] end.
-    destruct (fresh_ok M G x); [| discriminate H2].
-    match type of H2 with match ?c with _ => _ end = _ => destruct c; [| discriminate H2] end. congruence.
-  - intros G d r G1 G2 H1 H2; cbn in *. destruct d; congruence.
-  - intros G d r G1 G2 H1 H2; cbn in *. destruct d; congruence.
-  - intros e G d r G1 G2 H1 H2; cbn in *. destruct e as [e|]; destruct r as [| [t|]]; try discriminate H1; try congruence.
-    destruct (has_typeb M F G e t); congruence.
-  - intros b IHb G d r G1 G2 H1 H2; cbn in *.
-    destruct (block_chk M F (push G) d r b); [| discriminate H1]. destruct (sf_block M (push G) b); congruence.
-  - intros f a G d r G1 G2 H1 H2; cbn in *. destruct (assoc f F) as [[ps ro]|]; [| discriminate H1].
-    destruct (args_chk M F G a ps); congruence.
-  - intros G d r G1 G2 H1 H2; cbn in *. congruence.
-  - intros s IHs b IHb G d r G1 G2 H1 H2; cbn in *.
+  intros F; apply stmt_block_ind; intros;
+    try (match goal with
+         | H1 : stmt_chk _ _ _ _ _ _ = Some _, H2 : sf_stmt _ _ _ = Some _ |- _ =>
+             cbn [stmt_chk sf_stmt] in H1, H2;
+             repeat match type of H1 with
+                    | (if ?c then _ else _) = _ => destruct c; try discriminate H1
+                    | match ?c with _ => _ end = _ => destruct c; try discriminate H1
+                    end;
+             repeat match type of H2 with
+                    | (if ?c then _ else _) = _ => destruct c; try discriminate H2
+                    | match ?c with _ => _ end = _ => destruct c; try discriminate H2
+                    end;
+             congruence
+         end).
+  - cbn in *. congruence.
+  - cbn in H1, H2.
     destruct (stmt_chk M F G d r s) as [Ga|] eqn:Ea; [| discriminate H1].
     destruct (sf_stmt M G s) as [Gb|] eqn:Eb; [| discriminate H2].
-    rewrite (IHs _ _ _ _ _ Ea Eb) in H1. eapply IHb; eauto.
+    rewrite (H _ _ _ _ _ Ea Eb) in H1. eapply H0; eauto.
 Qed.
 
 Lemma sf_step : forall s G G1, sf_stmt M G s = Some G1 -> ext G G1 /\ (sok M G -> sok M G1).
@@ -268,6 +318,11 @@ Proof.
   - destruct (fresh_ok M G x); [| discriminate H].
     match type of H with match ?c with _ => _ end = _ => destruct c; [| discriminate H] end.
     injection H as <-. split; [apply ext_refl | auto].
+  - destruct (fresh_ok M G x); [| discriminate H].
+    match type of H with match ?c with _ => _ end = _ => destruct c; [| discriminate H] end.
+    injection H as <-. split; [apply ext_refl | auto].
+  - destruct (sf_block M (push G) b); [| discriminate H]. injection H as <-. split; [apply ext_refl | auto].
+  - destruct (sf_block M (push G) b); [| discriminate H]. injection H as <-. split; [apply ext_refl | auto].
   - destruct (sf_block M (push G) b); [| discriminate H]. injection H as <-. split; [apply ext_refl | auto].
 Qed.
 
@@ -317,6 +372,16 @@ Proof.
     cbn. unfold vassign_ok; cbn. unfold assignableb in Ea. apply orb_true_iff in Ea as [Ea | Ea].
     + apply ty_eqb_eq in Ea; subst. rewrite ty_eqb_refl. reflexivity.
     + apply andb_true_iff in Ea as [Ha Hb]. rewrite Ha, Hb, orb_true_r. reflexivity.
+  - (* SAssignIdx *)
+    intros x i e G d r G1 H1 H2 Hs G' deep Hext Hsok'. cbn in H1. destruct (lookup G x) as [[tx| | |]|] eqn:El; try discriminate H1.
+    destruct (seqlike tx) eqn:E1; [| discriminate H1]. destruct (indexb_expr M F G i) eqn:E2; [| discriminate H1].
+    destruct (assign_chk M F G e (selem tx)) eqn:E3; [| discriminate H1].
+    apply (tcs_assignidx_ok F G G' Hext (fun _ => Hsok') deep r x i e tx El E1 E2 E3).
+  - (* SAssignField *)
+    intros f x e G d r G1 H1 H2 Hs G' deep Hext Hsok'. cbn in H1. destruct (lookup G x) as [[[| | | | | | |s]| | |]|] eqn:El; try discriminate H1.
+    destruct (field_of M s f) as [[[|] tf]|] eqn:Ef; try discriminate H1.
+    destruct (assign_chk M F G e tf) eqn:E3; [| discriminate H1].
+    apply (tcs_assignfield_ok F G G' Hext (fun _ => Hsok') deep r f x e s tf El Ef E3).
   - (* SIf *)
     intros c th IHth el IHel G d r G1 H1 H2 Hs G' deep Hext Hsok'. cbn in H1, H2.
     destruct (has_typeb M F G c TBool) eqn:Ec; [| discriminate H1].
@@ -362,6 +427,43 @@ Proof.
     assert (Hs0 : sok M (bind (push G) x (BVar t))) by (apply sok_bind; auto using sok_push).
     apply (nested_ok F b (bind (push G) x (BVar t)) (S d) r Gb G' true) with (sc := [(x, BVar t)]) (G := G); auto.
     + intros G'' deep' He Hk. eapply IHb; eauto.
+    + congruence.
+  - (* SForEach *)
+    intros a t x e b IHb G d r G1 H1 H2 Hs G' deep Hext Hsok'. cbn [stmt_chk sf_stmt] in H1, H2.
+    match type of H1 with (if ?c then _ else _) = _ => destruct c eqn:E; [| discriminate H1] end.
+    destruct (block_chk M F (bind (push G) x (BVar t)) (S d) r b) as [Gb|] eqn:Eb; [| discriminate H1].
+    destruct (fresh_ok M G x) eqn:Ef; [| discriminate H2].
+    destruct (sf_block M (bind (push G) x (BVar t)) b) as [Xb|] eqn:Sb; [| discriminate H2].
+    apply andb_true_iff in E as [E E3]. destruct (type_of M F G e) as [te|] eqn:Ee; [| discriminate E3].
+    rewrite tcs_foreach_eq. destruct (tc_iter_complete F G G' Hext (fun _ => Hsok') _ _ _ Ee E3) as [-> _]. cbn [app].
+    destruct deep; auto.
+    pose proof (proj2 (sf_same F) _ _ _ _ _ _ Eb Sb) as <-.
+    apply fresh_ok_spec in Ef as [Ef1 Ef2].
+    assert (Hs0 : sok M (bind (push G) x (BVar t))) by (apply sok_bind; auto using sok_push).
+    apply (nested_ok F b (bind (push G) x (BVar t)) (S d) r Gb G' true) with (sc := [(x, BVar t)]) (G := G); auto.
+    + intros G'' deep' He Hk. eapply IHb; eauto.
+    + congruence.
+  - (* SRepeat *)
+    intros b IHb n G d r G1 H1 H2 Hs G' deep Hext Hsok'. cbn in H1, H2.
+    destruct (block_chk M F (push G) (S d) r b) as [Gb|] eqn:Eb; [| discriminate H1].
+    destruct (indexb_expr M F G n) eqn:En; [| discriminate H1].
+    destruct (sf_block M (push G) b) as [Xb|] eqn:Sb; [| discriminate H2].
+    rewrite tcs_repeat_eq. destruct (tc_index_complete F G G' Hext (fun _ => Hsok') _ En) as [tn [-> [Hi _]]]. cbn. rewrite Hi. cbn.
+    destruct deep; auto.
+    pose proof (proj2 (sf_same F) _ _ _ _ _ _ Eb Sb) as <-.
+    apply (nested_ok F b (push G) (S d) r Gb G' true) with (sc := []) (G := G); auto using sok_push.
+    + intros G'' deep' He Hk. eapply IHb; eauto using sok_push.
+    + congruence.
+  - (* SDoWhile *)
+    intros b IHb c G d r G1 H1 H2 Hs G' deep Hext Hsok'. cbn in H1, H2.
+    destruct (block_chk M F (push G) (S d) r b) as [Gb|] eqn:Eb; [| discriminate H1].
+    destruct (has_typeb M F G c TBool) eqn:Ec; [| discriminate H1].
+    destruct (sf_block M (push G) b) as [Xb|] eqn:Sb; [| discriminate H2].
+    rewrite tcs_dowhile_eq. destruct (tc_cond_complete F G G' Hext (fun _ => Hsok') _ Ec) as [-> _]. cbn [app].
+    destruct deep; auto.
+    pose proof (proj2 (sf_same F) _ _ _ _ _ _ Eb Sb) as <-.
+    apply (nested_ok F b (push G) (S d) r Gb G' true) with (sc := []) (G := G); auto using sok_push.
+    + intros G'' deep' He Hk. eapply IHb; eauto using sok_push.
     + congruence.
   - intros; reflexivity.
   - intros; reflexivity.
@@ -434,6 +536,18 @@ Proof.
     destruct (assign_chk M F G e t) eqn:Ea; [| discriminate H1]. injection H1 as <-.
     rewrite ck_assign_eq, El. destruct (tc_init_complete F G G (ext_refl G) (fun _ => Hs) _ _ Ea) as [_ [-> ->]].
     rewrite Hre; auto using ext_refl.
+  - (* SAssignIdx *)
+    intros x i e G d r G1 H1 H2 Hs. cbn in H1. destruct (lookup G x) as [[tx| | |]|] eqn:El; try discriminate H1.
+    destruct (seqlike tx) eqn:E1; [| discriminate H1]. destruct (indexb_expr M F G i) eqn:E2; [| discriminate H1].
+    destruct (assign_chk M F G e (selem tx)) eqn:E3; [| discriminate H1]. injection H1 as <-.
+    destruct (tcs_assignidx_ok F G G (ext_refl G) (fun _ => Hs) (q_tc_by_name Q) r x i e tx El E1 E2 E3) as [Ht [Hx [_ [Hri [Hpi [Hre Hpe]]]]]].
+    rewrite ck_assignidx_eq, El, Hpe, Hpi, Hx, Hri, Hre, Ht. reflexivity.
+  - (* SAssignField *)
+    intros f x e G d r G1 H1 H2 Hs. cbn in H1. destruct (lookup G x) as [[[| | | | | | |s]| | |]|] eqn:El; try discriminate H1.
+    destruct (field_of M s f) as [[[|] tf]|] eqn:Ef; try discriminate H1.
+    destruct (assign_chk M F G e tf) eqn:E3; [| discriminate H1]. injection H1 as <-.
+    destruct (tcs_assignfield_ok F G G (ext_refl G) (fun _ => Hs) (q_tc_by_name Q) r f x e s tf El Ef E3) as [Ht [Hx [_ [Hre Hpe]]]].
+    rewrite ck_assignfield_eq, El, Hpe, Hx, Hre, Ht. reflexivity.
   - (* SIf *)
     intros c th IHth el IHel G d r G1 H1 H2 Hs.
     pose proof (proj1 (rerun_ok F) _ _ _ _ _ H1 H2 Hs) as Hre. cbn in H1, H2.
@@ -483,6 +597,41 @@ Proof.
       destruct (tc_numeric_complete F G G (ext_refl G) (fun _ => Hs) _ E6) as [_ [_ ->]].
       destruct (tc_numeric_complete F G _ HxGr (fun _ => HkGr) _ E6) as [_ [-> _]]. split; reflexivity. }
     destruct Hst as [-> ->]. cbn [unless app].
+    rewrite Hre; auto using ext_refl.
+  - (* SForEach *)
+    intros a t x e b IHb G d r G1 H1 H2 Hs.
+    pose proof (proj1 (rerun_ok F) _ _ _ _ _ H1 H2 Hs) as Hre. cbn [stmt_chk sf_stmt] in H1, H2.
+    match type of H1 with (if ?c then _ else _) = _ => destruct c eqn:E; [| discriminate H1] end.
+    destruct (block_chk M F (bind (push G) x (BVar t)) (S d) r b) as [Gb|] eqn:Eb; [| discriminate H1]. injection H1 as <-.
+    destruct (fresh_ok M G x) eqn:Ef; [| discriminate H2].
+    destruct (sf_block M (bind (push G) x (BVar t)) b) as [Xb|] eqn:Sb; [| discriminate H2].
+    pose proof (proj2 (sf_same F) _ _ _ _ _ _ Eb Sb) as <-.
+    apply andb_true_iff in E as [E E3]. apply andb_true_iff in E as [E1 E2].
+    destruct (type_of M F G e) as [te|] eqn:Ee; [| discriminate E3].
+    apply fresh_ok_spec in Ef as [Ef1 Ef2].
+    assert (Hs0 : sok M (bind (push G) x (BVar t))) by (apply sok_bind; auto using sok_push).
+    rewrite ck_foreach_eq, (IHb _ _ _ _ Eb Sb Hs0). unfold pt_type. rewrite E1, (art_diag_ok _ _ E2).
+    destruct (tc_iter_complete F G G (ext_refl G) (fun _ => Hs) _ _ _ Ee E3) as [_ [-> ->]]. cbn [unless app].
+    rewrite Hre; auto using ext_refl.
+  - (* SRepeat *)
+    intros b IHb n G d r G1 H1 H2 Hs.
+    pose proof (proj1 (rerun_ok F) _ _ _ _ _ H1 H2 Hs) as Hre. cbn in H1, H2.
+    destruct (block_chk M F (push G) (S d) r b) as [Gb|] eqn:Eb; [| discriminate H1].
+    destruct (indexb_expr M F G n) eqn:En; [| discriminate H1]. injection H1 as <-.
+    destruct (sf_block M (push G) b) as [Xb|] eqn:Sb; [| discriminate H2].
+    pose proof (proj2 (sf_same F) _ _ _ _ _ _ Eb Sb) as <-.
+    rewrite ck_repeat_eq, (IHb _ _ _ _ Eb Sb (sok_push _ _ Hs)).
+    destruct (tc_index_complete F G G (ext_refl G) (fun _ => Hs) _ En) as [tn [_ [_ [-> ->]]]].
+    rewrite Hre; auto using ext_refl.
+  - (* SDoWhile *)
+    intros b IHb c G d r G1 H1 H2 Hs.
+    pose proof (proj1 (rerun_ok F) _ _ _ _ _ H1 H2 Hs) as Hre. cbn in H1, H2.
+    destruct (block_chk M F (push G) (S d) r b) as [Gb|] eqn:Eb; [| discriminate H1].
+    destruct (has_typeb M F G c TBool) eqn:Ec; [| discriminate H1]. injection H1 as <-.
+    destruct (sf_block M (push G) b) as [Xb|] eqn:Sb; [| discriminate H2].
+    pose proof (proj2 (sf_same F) _ _ _ _ _ _ Eb Sb) as <-.
+    rewrite ck_dowhile_eq, (IHb _ _ _ _ Eb Sb (sok_push _ _ Hs)).
+    destruct (tc_cond_complete F G G (ext_refl G) (fun _ => Hs) _ Ec) as [_ [-> ->]].
     rewrite Hre; auto using ext_refl.
   - intros G d r G1 H1 _ _. cbn in *. destruct d; inversion H1; reflexivity.
   - intros G d r G1 H1 _ _. cbn in *. destruct d; inversion H1; reflexivity.
@@ -689,6 +838,14 @@ Proof.
     cbn. unfold vassign_ok; cbn. unfold assignableb in Ea. apply orb_true_iff in Ea as [Ea | Ea].
     + apply ty_eqb_eq in Ea; subst. rewrite ty_eqb_refl. reflexivity.
     + apply andb_true_iff in Ea as [Ha Hb]. rewrite Ha, Hb, orb_true_r. reflexivity.
+  - cbn in H1. destruct (lookup G x) as [[tx| | |]|] eqn:El; try discriminate H1.
+    destruct (seqlike tx) eqn:E1; [| discriminate H1]. destruct (indexb_expr M F G i) eqn:E2; [| discriminate H1].
+    destruct (assign_chk M F G e (selem tx)) eqn:E3; [| discriminate H1].
+    apply (tcs_assignidx_ok Q M F G G (ext_refl G) (nosok G) false r x i e tx El E1 E2 E3).
+  - cbn in H1. destruct (lookup G x) as [[[| | | | | | |s]| | |]|] eqn:El; try discriminate H1.
+    destruct (field_of M s f) as [[[|] tf]|] eqn:Ef; try discriminate H1.
+    destruct (assign_chk M F G e tf) eqn:E3; [| discriminate H1].
+    apply (tcs_assignfield_ok Q M F G G (ext_refl G) (nosok G) false r f x e s tf El Ef E3).
   - cbn in H1. destruct (has_typeb M F G c TBool) eqn:Ec; [| discriminate H1].
     rewrite tcs_if_eq. destruct (tc_cond_complete Q M F G G (ext_refl G) (nosok G) _ Ec) as [-> _]. reflexivity.
   - cbn in H1. destruct (has_typeb M F G c TBool) eqn:Ec; [| discriminate H1].
@@ -701,6 +858,16 @@ Proof.
     destruct (tc_numeric_complete Q M F G G (ext_refl G) (nosok G) _ E5) as [-> _]. rewrite E3. cbn [unless app].
     destruct step as [e|]; [| reflexivity].
     destruct (tc_numeric_complete Q M F G G (ext_refl G) (nosok G) _ E6) as [-> _]. reflexivity.
+  - cbn [stmt_chk] in H1.
+    match type of H1 with (if ?c then _ else _) = _ => destruct c eqn:E; [| discriminate H1] end.
+    apply andb_true_iff in E as [E E3]. destruct (type_of M F G e) as [te|] eqn:Ee; [| discriminate E3].
+    rewrite tcs_foreach_eq. destruct (tc_iter_complete Q M F G G (ext_refl G) (nosok G) _ _ _ Ee E3) as [-> _]. reflexivity.
+  - cbn in H1. destruct (block_chk M F (push G) (S d) r b); [| discriminate H1].
+    destruct (indexb_expr M F G n) eqn:En; [| discriminate H1].
+    rewrite tcs_repeat_eq. destruct (tc_index_complete Q M F G G (ext_refl G) (nosok G) _ En) as [tn [-> [Hi _]]]. cbn. rewrite Hi. reflexivity.
+  - cbn in H1. destruct (block_chk M F (push G) (S d) r b); [| discriminate H1].
+    destruct (has_typeb M F G c TBool) eqn:Ec; [| discriminate H1].
+    rewrite tcs_dowhile_eq. destruct (tc_cond_complete Q M F G G (ext_refl G) (nosok G) _ Ec) as [-> _]. reflexivity.
   - reflexivity.
   - reflexivity.
   - rewrite tcs_return_eq. unfold tc_return. cbn in H1.
@@ -738,6 +905,16 @@ Proof.
     destruct (assign_chk M F G e t) eqn:Ea; [| discriminate H1]. injection H1 as <-.
     rewrite ck_assign_eq, El. destruct (tc_init_complete Q M F G G (ext_refl G) (nosok G) _ _ Ea) as [_ [-> ->]].
     rewrite Hq1, Hre. reflexivity.
+  - intros x i e G d r G1 H1. pose proof (tcs_shallow F _ _ _ _ _ H1) as Hre. cbn in H1. destruct (lookup G x) as [[tx| | |]|] eqn:El; try discriminate H1.
+    destruct (seqlike tx) eqn:E1; [| discriminate H1]. destruct (indexb_expr M F G i) eqn:E2; [| discriminate H1].
+    destruct (assign_chk M F G e (selem tx)) eqn:E3; [| discriminate H1]. injection H1 as <-.
+    destruct (tcs_assignidx_ok Q M F G G (ext_refl G) (nosok G) false r x i e tx El E1 E2 E3) as [_ [Hx [_ [Hri [Hpi [Hr Hp]]]]]].
+    rewrite ck_assignidx_eq, El, Hp, Hpi, Hx, Hri, Hr, Hq1, Hre. reflexivity.
+  - intros f x e G d r G1 H1. pose proof (tcs_shallow F _ _ _ _ _ H1) as Hre. cbn in H1. destruct (lookup G x) as [[[| | | | | | |s]| | |]|] eqn:El; try discriminate H1.
+    destruct (field_of M s f) as [[[|] tf]|] eqn:Ef; try discriminate H1.
+    destruct (assign_chk M F G e tf) eqn:E3; [| discriminate H1]. injection H1 as <-.
+    destruct (tcs_assignfield_ok Q M F G G (ext_refl G) (nosok G) false r f x e s tf El Ef E3) as [_ [Hx [_ [Hr Hp]]]].
+    rewrite ck_assignfield_eq, El, Hp, Hx, Hr, Hq1, Hre. reflexivity.
   - intros c th IHth el IHel G d r G1 H1. pose proof (tcs_shallow F _ _ _ _ _ H1) as Hre. cbn in H1.
     destruct (has_typeb M F G c TBool) eqn:Ec; [| discriminate H1].
     destruct (block_chk M F (push G) d r th) as [Gth|] eqn:Eth; [| discriminate H1].
@@ -763,6 +940,24 @@ Proof.
     { destruct step as [e|]; [| split; reflexivity]. cbn.
       destruct (tc_numeric_complete Q M F G G (ext_refl G) (nosok G) _ E6) as [_ [-> ->]]. split; reflexivity. }
     destruct Hst as [-> ->]. cbn [unless app]. rewrite Hre. reflexivity.
+  - intros a t x e b IHb G d r G1 H1. pose proof (tcs_shallow F _ _ _ _ _ H1) as Hre. cbn [stmt_chk] in H1.
+    match type of H1 with (if ?c then _ else _) = _ => destruct c eqn:E; [| discriminate H1] end.
+    destruct (block_chk M F (bind (push G) x (BVar t)) (S d) r b) as [Gb|] eqn:Eb; [| discriminate H1]. injection H1 as <-.
+    apply andb_true_iff in E as [E E3]. apply andb_true_iff in E as [E1 E2].
+    destruct (type_of M F G e) as [te|] eqn:Ee; [| discriminate E3].
+    rewrite ck_foreach_eq, (IHb _ _ _ _ Eb), Hq1. unfold pt_type. rewrite E1, (art_diag_ok M _ _ E2).
+    destruct (tc_iter_complete Q M F G G (ext_refl G) (nosok G) _ _ _ Ee E3) as [_ [-> ->]]. cbn [unless app].
+    rewrite Hre. reflexivity.
+  - intros b IHb n G d r G1 H1. pose proof (tcs_shallow F _ _ _ _ _ H1) as Hre. cbn in H1.
+    destruct (block_chk M F (push G) (S d) r b) as [Gb|] eqn:Eb; [| discriminate H1].
+    destruct (indexb_expr M F G n) eqn:En; [| discriminate H1]. injection H1 as <-.
+    rewrite ck_repeat_eq, (IHb _ _ _ _ Eb), Hq1.
+    destruct (tc_index_complete Q M F G G (ext_refl G) (nosok G) _ En) as [tn [_ [_ [-> ->]]]]. rewrite Hre. reflexivity.
+  - intros b IHb c G d r G1 H1. pose proof (tcs_shallow F _ _ _ _ _ H1) as Hre. cbn in H1.
+    destruct (block_chk M F (push G) (S d) r b) as [Gb|] eqn:Eb; [| discriminate H1].
+    destruct (has_typeb M F G c TBool) eqn:Ec; [| discriminate H1]. injection H1 as <-.
+    rewrite ck_dowhile_eq, (IHb _ _ _ _ Eb), Hq1.
+    destruct (tc_cond_complete Q M F G G (ext_refl G) (nosok G) _ Ec) as [_ [-> ->]]. rewrite Hre. reflexivity.
   - intros G d r G1 H1. cbn in *. destruct d; inversion H1; reflexivity.
   - intros G d r G1 H1. cbn in *. destruct d; inversion H1; reflexivity.
   - intros oe G d r G1 H1. pose proof (tcs_shallow F _ _ _ _ _ H1) as Hre. cbn in H1.
@@ -878,7 +1073,14 @@ Definition ex_ok : prog :=
                 TFun {| f_name := 101; f_params := [(102, TZahl, true)]; f_ret := Some (Die, TZahl);
                         f_body := BCons (SAssign 102 (EBin BPlus (EVar 102) (ELit LZahl))) (BCons (SReturn (Some (EVar 102))) BNil) |};
                 TStmt (SFor Die TZahl 103 (ELit LZahl) (ECall 30 (ACons (EVar 100) ANil)) None
-                            (BCons (SCall 101 (ACons (EVar 100) ANil)) (BCons SBreak BNil)))] |}.
+                            (BCons (SCall 101 (ACons (EVar 100) ANil)) (BCons SBreak BNil)));
+                TStmt (SVar Die (TList TZahl) 105 (EList (ELit LZahl) (ACons (EVar 100) ANil)));
+                TStmt (SAssignIdx 105 (ELit LZahl) (EVar 104));
+                TStmt (SAssignField 2 10 (EVar 100));
+                TStmt (SForEach Die TZahl 106 (EBin BVerkettet (EVar 105) (EVar 100)) (BCons (SAssign 100 (EVar 106)) BNil));
+                TStmt (SRepeat (BCons (SAssign 100 (EUn ULen (ESlice (EVar 105) (ELit LZahl) (EVar 100)))) BNil) (ELit LZahl));
+                TStmt (SDoWhile (BCons (SAssign 100 (ELit LZahl)) BNil) (ELit LBool));
+                TStmt (SConst Die 107 LText)] |}.
 
 Lemma ex_ok_facts : wfb ex_ok = true /\ shadow_free ex_ok = true /\ quirk_free ex_ok = true /\ check ex_ok = [] /\ check_pinned ex_ok = [].
 Proof. repeat split; vm_compute; reflexivity. Qed.
